@@ -21,8 +21,11 @@ Confined(e) == IF e.outside = <<>> THEN {} ELSE {"store.confined"}
 
 Judge(e) ==
   CASE e.op = "Store" ->
-         LET r == S!StoreResult(Eff(dir), entries, DocOf(e), e.nc) IN
+         LET r0 == S!StoreResult(Eff(dir), entries, DocOf(e), e.nc)
+             \* a document with text that is not valid UTF-8 cannot be written: the store refuses it
+             r == IF "badutf8" \in DOMAIN e.doc THEN [r0 EXCEPT !.res = "err"] ELSE r0 IN
            Outcome(e) \cup Confined(e)
+           \cup (IF "docchanged" \in DOMAIN e THEN {"store.frame.document-changed"} ELSE {})
            \cup (IF e.res.kind \in {"ok", "err"} /\ e.res.kind # r.res
                  THEN {IF r.res = "err" /\ e.nc /\ e.id \in DOMAIN entries THEN "store.noclobber"
                        ELSE IF r.res = "err" /\ e.id = "" THEN "store.noid"
